@@ -46,9 +46,18 @@ EXPLANATION = (
     "of self._check_chk(storage_index) followed by _did_chk_check for that storage index, nothing else calls "
     "_did_chk_check / _make_chk_upload_helper / chk_upload, _check_chk answers only with the Deferred of a checker made "
     "for its storage index in this call, and _did_chk_check reports only its own argument as already present (state that "
-    "outlives the call never stands in for the grid check). "
+    "outlives the call never stands in for the grid check); (13) the loop in which EncryptAnUploadable.read_encrypted reads, "
+    "hashes and encrypts the requested length chunk by chunk - a control-flow loop (plain or in an inlineCallbacks body) "
+    "around the site that gets to self.original.read, or deferredutil.until(action, condition), whose own loop is checked "
+    "to be left only on condition() - is left only on tests whose value does not depend on the ciphertext produced by "
+    "_hash_and_encrypt_plaintext (its result, the result of helpers / Deferreds that hand it on, fields of an accumulator "
+    "object that a method stores it or something computed from it in), except on ways out taken only with hash_only "
+    "off; a loop exit that depends on a helper result mixing ciphertext with other values, or a read loop of another "
+    "shape (recursion), is reported as undecided. The sites of (9) and (13) are found by role from read_encrypted "
+    "through nested defs, lambdas, callback registrations and helper methods, the flag followed through the arguments. "
     "Undecided: byte equality of shares, crash interleavings between write and rename, foolscap transport, "
-    "honesty of the helper and of the storage servers answering the already-present query; exceptions other than "
+    "honesty of the helper and of the storage servers answering the already-present query; that the chunk sizes "
+    "requested from the plaintext add up to exactly the requested length (arithmetic of the byte counter); exceptions other than "
     "the modelled early-failure ones inside the failure handlers; the value of the expected size (what get_size "
     "answered); data still buffered in an incoming file that a failure handler left open (OS buffering / garbage "
     "collection timing); uploadables whose read() is really asynchronous; liveness (a fetch that never starts or "
@@ -1251,7 +1260,7 @@ def run(ctx: Context):
     with ctx.rule("C44.9", "R10/R6", "every plaintext chunk the client consumes runs through the one stateful AES-CTR "
                   "encryptor whether or not hash_only is set (the flag decides only what is returned); the read chain "
                   "down to the encryptor is not control-dependent on hash_only; the encryptor is created once",
-                  expected=7) as r:
+                  expected=6) as r:
         eau = idx.cls(UP + ":EncryptAnUploadable")
         he = idx.func(UP + ":EncryptAnUploadable._hash_and_encrypt_plaintext")
         hp = first_positional_params(he)
@@ -1315,38 +1324,46 @@ def run(ctx: Context):
                         "(path: %s): the AES-CTR keystream falls behind the file offset and a resumed transfer gets "
                         "wrong ciphertext" % (flag, w.brief()), w)
         # the read chain above the encryptor
+        # (found by role: from the entry point down through nested defs / lambdas / callback registrations / helper
+        # methods of the same class - `x = yield self.helper(..)` in an inlineCallbacks body is a plain call here -
+        # with the hash_only flag followed through the arguments of every hop)
         reu = idx.func(UP + ":RemoteEncryptedUploadable._read_encrypted")
-        chain = [(idx.func(UP + ":EncryptAnUploadable._read_encrypted"), "self._hash_and_encrypt_plaintext", "hash and encrypt"),
-                 (idx.func(UP + ":EncryptAnUploadable._read_encrypted"), "self.original.read", "plaintext read"),
-                 (idx.func(UP + ":EncryptAnUploadable.read_encrypted"), "self._read_encrypted", "chunked read loop"),
+        eau_top = idx.func(UP + ":EncryptAnUploadable.read_encrypted")
+        chain = [(eau_top, "self._hash_and_encrypt_plaintext", "hash and encrypt"),
+                 (eau_top, "self.original.read", "plaintext read"),
                  (reu, "self._eu.read_encrypted", "read through the encrypting wrapper")]
+        done_levels = set()
         for (top, callee, what) in chain:
             tp = first_positional_params(top)
             if len(tp) < 2:
                 raise AnchorVanished("%s(length, hash_only) parameters" % top.qual)
-            tflag = tp[1]
-            found = _find_calls(idx, top, callee)
-            if not found:
-                raise AnchorVanished("%s no longer calls %s" % (top.qual, callee))
-            for (g, c) in found:
-                r.site(g, c, what)
-                for n in g.cfg().nodes:
-                    if any(x is c for x in node_calls(n)):
-                        gd_ = _flag_guard(n, c, tflag)
-                        r.require(gd_ is None, g, g.loc(c), "%s (%s) is evaluated only under %s: skipped bytes must be read, "
-                                  "hashed and encrypted like served ones" % (callee, what, src(g, gd_) if gd_ is not None else ""))
-                level, gate = g, (lambda n, _c=c: any(x is _c for x in node_calls(n)))
-                while True:
-                    bad, nst = _flag_dependent_skips(level, tflag, None, gate)
+            paths = _role_sites(idx, top, callee, tp[1])
+            if not paths:
+                raise AnchorVanished("%s no longer reaches %s" % (top.qual, callee))
+            for path in paths:
+                g0, c0, _s0, _f0 = path[0]
+                r.site(g0, c0, what)
+                for (level, c, sub, lflag) in path:
+                    key = (level.qual, id(c) if c is not None else sub.qual, lflag)
+                    if key in done_levels or lflag is None:
+                        continue
+                    done_levels.add(key)
+                    if c is not None:
+                        gate = (lambda n, _c=c: any(x is _c for x in node_calls(n)))
+                        for n in level.cfg().nodes:
+                            if gate(n):
+                                gd_ = _flag_guard(n, c, lflag)
+                                r.require(gd_ is None, level, level.loc(c), "%s (%s) is evaluated only under %s: skipped bytes "
+                                          "must be read, hashed and encrypted like served ones"
+                                          % (callee, what, src(level, gd_) if gd_ is not None else ""))
+                    else:
+                        gate = _mentions(sub)
+                    bad, nst = _flag_dependent_skips(level, lflag, None, gate)
                     r.count(nst)
                     for (n, w) in bad:
                         r.violation(level, level.loc(n.ast), "%s (%s) is skipped when %s is set (path: %s): skipped bytes must be "
                                     "read, hashed and encrypted like served ones or the keystream position is lost"
-                                    % (callee, what, tflag, w.brief()), w)
-                    if level is top or level.parent is None:
-                        break
-                    gate = _mentions(level)
-                    level = level.parent
+                                    % (callee, what, lflag, w.brief()), w)
         # one encryptor per upload
         ge = idx.func(UP + ":EncryptAnUploadable._get_encryptor")
         gcfg = ge.cfg()
@@ -1765,6 +1782,95 @@ def run(ctx: Context):
         if n_t == 0:
             raise AnchorVanished("_did_chk_check returns nothing")
 
+    # -- 13. the chunked read loop consumes the whole requested length -------
+    with ctx.rule("C44.13", "R10/E6", "EncryptAnUploadable.read_encrypted(length, hash_only): the loop that reads / hashes / "
+                  "encrypts chunk after chunk is left only on tests of the byte counter or of what the plaintext read returned, "
+                  "never on the ciphertext produced (empty by design when hash_only is set)", expected=2) as r:
+        top = idx.func(UP + ":EncryptAnUploadable.read_encrypted")
+        tp = first_positional_params(top)
+        if len(tp) < 2:
+            raise AnchorVanished("%s(length, hash_only) parameters" % top.qual)
+        read_paths = _role_sites(idx, top, PT_READ, tp[1])
+        enc_paths = _role_sites(idx, top, SRC_CT, tp[1])
+        if not read_paths or not enc_paths:
+            raise AnchorVanished("%s no longer reaches %s" % (top.qual, PT_READ if not read_paths else SRC_CT))
+        taint = _CtTaint(idx)
+        region = {}
+        stack = [lv[0] for p in read_paths + enc_paths for lv in p]
+        while stack:
+            g = stack.pop()
+            if g.qual in region:
+                continue
+            region[g.qual] = g
+            stack += _sub_funcs(idx, g)
+        tfields = taint.tainted_fields(region.values())
+        n_loops = 0
+        why = ("in hash_only mode (a resuming client skipping what the helper already holds) no ciphertext is produced, so "
+               "the skip stops short of the requested length while RemoteEncryptedUploadable advances its offset by all of "
+               "it: the ciphertext then served comes from the wrong plaintext / AES-CTR position")
+
+        def judge(fn, expr, at, what):
+            kinds = taint.feeding(fn, expr, tfields)
+            bad = [k for k in kinds if k[0] in ("ct", "field")]
+            if bad:
+                k = bad[0]
+                dep = k[1] if k[0] == "field" else src(fn, k[1])
+                r.violation(fn, fn.loc(at), "%s %s depends on the ciphertext produced (%s): %s" % (what, src(fn, expr), dep, why))
+            elif kinds:
+                raise AnalysisError("%s: %s %s depends on the result of %s, which carries ciphertext together with other "
+                                    "values: not decided" % (fn.qual, what, src(fn, expr), src(fn, sorted(kinds, key=str)[0][1])))
+
+        # (a) a loop in the control flow (plain or inlineCallbacks body) around the read
+        seen_loops = set()
+        for path in read_paths:
+            for (level, c, sub, lflag) in path:
+                gate = (lambda n, _c=c: any(x is _c for x in node_calls(n))) if c is not None else _mentions(sub)
+                cfg = level.cfg()
+                for s in cfg.find(gate):
+                    if (level.qual, s.id) in seen_loops:
+                        continue
+                    seen_loops.add((level.qual, s.id))
+                    exits, nst = _loop_exits(level, s, lflag)
+                    r.count(nst)
+                    if exits is None:
+                        continue
+                    n_loops += 1
+                    r.site(level, s.ast, "read loop")
+                    done = set()
+                    for (n, lab, st) in exits:
+                        expr = n.ast.iter if n.kind == "iter" else (n.ast if n.kind == "test" else None)
+                        if expr is None or (n.id, st == "F") in done:
+                            continue
+                        done.add((n.id, st == "F"))
+                        r.site(level, expr, "loop exit test")
+                        if st == "F":
+                            continue        # this way out is taken only with the flag off: real ciphertext is expected then
+                        judge(level, expr, expr, "the read loop is left on a test that")
+        # (b) deferredutil.until(action, condition) around the read
+        for g in list(region.values()):
+            for c in _calls(g, "until"):
+                if len(c.args) != 2 or c.keywords:
+                    continue
+                act = _cb_func(idx, g, c.args[0])
+                cond = _cb_func(idx, g, c.args[1])
+                if act is None or cond is None:
+                    raise AnalysisError("%s: until(%s): action / condition not resolvable" % (g.qual, src(g, c)))
+                if not _role_sites(idx, act, PT_READ, None):
+                    continue
+                _check_until(idx)
+                n_loops += 1
+                r.site(g, c, "until loop")
+                exprs = [n.ast for n in cond.cfg().nodes if n.kind == "test"]
+                exprs += [n.ast.value for n in cond.cfg().find(is_return) if n.ast.value is not None]
+                if not exprs:
+                    raise AnchorVanished("%s decides nothing" % cond.qual)
+                for e in exprs:
+                    r.site(cond, e, "loop exit test")
+                    judge(cond, e, e, "the stop condition of the read loop")
+        if n_loops == 0:
+            raise AnalysisError("%s: the loop that reads the requested length chunk by chunk was not recognised (neither a "
+                                "control-flow loop nor until(action, condition) around %s): not decided" % (top.qual, PT_READ))
+
 
 # ------------------------------------------------------------ shared pieces
 def _data_callback(idx, fetch):
@@ -1997,13 +2103,61 @@ def _sub_funcs(idx, fn):
     return out
 
 
-def _find_calls(idx, fn, name, depth=4):
-    """[(innermost function, call)] for calls with dotted callee `name` in fn or (recursively) its nested defs / lambdas."""
-    out = [(fn, c) for c in _calls(fn) if call_name(c) == name
-           or (call_tail(c) == "maybeDeferred" and c.args and attr_path(c.args[0]) == name)]
-    if depth > 0:
-        for g in _sub_funcs(idx, fn):
-            out += _find_calls(idx, g, name, depth - 1)
+def _uses(fn):
+    """[(call node, callee expression, positional args as the callee sees them, keywords)] for every way fn itself
+    invokes a callable: f(a..), maybeDeferred(f, a..), d.addCallback(f, a..) (the callee's first argument is then
+    the Deferred's result: None in the list)."""
+    out = []
+    for c in _calls(fn):
+        out.append((c, c.func, list(c.args), list(c.keywords)))
+        if call_tail(c) == "maybeDeferred" and c.args:
+            out.append((c, c.args[0], list(c.args[1:]), list(c.keywords)))
+    for x in _regs(fn):
+        if x.kind in ("cb", "both", "pair") and x.target is not None:
+            out.append((x.call, x.target, [None] + list(x.args or []), []))
+    return out
+
+
+def _self_method(fn, e):
+    """FuncInfo of `self.m` (a method of the class fn belongs to), else None."""
+    if isinstance(e, ast.Attribute) and isinstance(e.value, ast.Name) and e.value.id == "self" and fn.cls is not None:
+        return fn.cls.lookup(e.attr)
+    return None
+
+
+def _role_sites(idx, fn, name, flag, depth=5, seen=()):
+    """Every way `fn` gets to invoke the callable with dotted name `name`: directly, from a nested def / lambda, or through
+    helper methods of its own class (called, or registered as callbacks).  One path per site, innermost level first;
+    a level is (function, call node in it or None, nested function mentioned in it or None, name the boolean
+    `flag` has in that function or None when it does not get there)."""
+    out = []
+    uses = _uses(fn)
+    for (c, callee, _args, _kws) in uses:
+        if attr_path(callee) == name:
+            out.append([(fn, c, None, flag)])
+    if depth <= 0:
+        return out
+    for g in _sub_funcs(idx, fn):
+        gflag = None if (flag is not None and flag in g.params) else flag
+        for p in _role_sites(idx, g, name, gflag, depth - 1, seen):
+            out.append(p + [(fn, None, g, flag)])
+    for (c, callee, args, kws) in uses:
+        if attr_path(callee) == name:
+            continue
+        m = _self_method(fn, callee)
+        if m is None or m.qual in seen or m.qual == fn.qual:
+            continue
+        ps = first_positional_params(m)
+        mflag = None
+        if flag is not None:
+            for i, a in enumerate(args):
+                if isinstance(a, ast.Name) and a.id == flag and i < len(ps):
+                    mflag = ps[i]
+            for k in kws:
+                if k.arg and isinstance(k.value, ast.Name) and k.value.id == flag:
+                    mflag = k.arg
+        for p in _role_sites(idx, m, name, mflag, depth - 1, seen + (fn.qual, m.qual)):
+            out.append(p + [(fn, c, None, flag)])
     return out
 
 
@@ -2021,6 +2175,220 @@ def _mentions(g):
                     return True
         return False
     return p
+
+
+# ------------------------------------------------------------- C44.13 pieces
+PT_READ = "self.original.read"
+SRC_CT = "self._hash_and_encrypt_plaintext"
+_MUTATORS = ("append", "add", "update", "extend", "insert", "setdefault", "write")
+
+
+class _CtTaint:
+    """Which values are the ciphertext produced by SRC_CT.  'ct' = the value (or the result of the Deferred) IS what
+    SRC_CT returned: a call of it, a call of / `yield` on a function all of whose returns are such values, a Deferred
+    variable whose last callback is such a function.  'mixed' = the result of a function that gets to SRC_CT but returns
+    something else (a tuple, a count, None): what part of it is ciphertext is not decided.  Field-sensitive for objects of
+    classes of the same module: accum.extend(size, ct) taints the fields the method stores its ciphertext argument in."""
+
+    def __init__(self, idx):
+        self.idx = idx
+        self._ct, self._defs, self._reach = {}, {}, {}
+
+    def reaches(self, f):
+        if f.qual not in self._reach:
+            self._reach[f.qual] = False
+            self._reach[f.qual] = bool(_role_sites(self.idx, f, SRC_CT, None))
+        return self._reach[f.qual]
+
+    def ct_callable(self, fn, e):
+        if attr_path(e) == SRC_CT:
+            return True
+        f = _cb_func(self.idx, fn, e)
+        return f is not None and self.ct_fn(f)
+
+    def ct_fn(self, f):
+        if f.qual not in self._ct:
+            self._ct[f.qual] = False
+            if isinstance(f.node, ast.Lambda):
+                rets = [f.node.body]
+            else:
+                rets = [n.value for n in _own(f) if isinstance(n, ast.Return) and n.value is not None]
+            self._ct[f.qual] = bool(rets) and all(self.ct_expr(f, v) for v in rets)
+        return self._ct[f.qual]
+
+    def ct_expr(self, f, e, depth=4):
+        while isinstance(e, (ast.Yield, ast.YieldFrom, ast.Await)) and e.value is not None:
+            e = e.value
+        if isinstance(e, ast.Call):
+            if self.ct_callable(f, e.func):
+                return True
+            return call_tail(e) == "maybeDeferred" and bool(e.args) and self.ct_callable(f, e.args[0])
+        if isinstance(e, ast.Name) and depth > 0:
+            regs = [x for x in _regs(f) if x.recv == e.id and x.kind in ("cb", "both", "pair")]
+            if regs:
+                return self.ct_callable(f, regs[-1].target)
+            ds = def_exprs(f).get(e.id, [])
+            return bool(ds) and all(self.ct_expr(f, v, depth - 1) for v in ds)
+        return False
+
+    def call_kind(self, f, c):
+        if self.ct_expr(f, c):
+            return "ct"
+        cands = [c.func] + ([c.args[0]] if call_tail(c) == "maybeDeferred" and c.args else [])
+        for e in cands:
+            if isinstance(e, ast.Lambda):
+                continue
+            g = _cb_func(self.idx, f, e)
+            if g is not None and attr_path(e) != SRC_CT and self.reaches(g):
+                return "mixed"
+        return None
+
+    def field_effects(self, f, c):
+        """{field: [argument expressions of call c that the method stores into self.<field>]} for a method call on a
+        local object whose method name belongs to a class of this module; None when there is no such class."""
+        meths = [ci.methods[c.func.attr] for ci in f.module.classes.values() if c.func.attr in ci.methods]
+        if not meths:
+            return None
+        out = {}
+        for m in meths:
+            ps = first_positional_params(m)
+            bound = {ps[i]: a for i, a in enumerate(c.args) if i < len(ps) and not isinstance(a, ast.Starred)}
+            bound.update({k.arg: k.value for k in c.keywords if k.arg})
+            md = def_exprs(m)
+            for key, vals in md.items():
+                if not key.startswith("self.") or key.count(".") != 1:
+                    continue
+                for v in vals:
+                    deps = depends_on(m, v, defs=md)
+                    for p_, a in bound.items():
+                        if p_ in deps:
+                            out.setdefault(key[5:], []).append(a)
+        return out
+
+    def defs(self, f):
+        if f.qual not in self._defs:
+            d = {k: list(v) for k, v in def_exprs(f).items()}
+            for c in _calls(f):
+                if not isinstance(c.func, ast.Attribute):
+                    continue
+                recv = attr_path(c.func.value)
+                if not recv or recv == "self" or recv.startswith("self."):
+                    continue
+                fx = self.field_effects(f, c)
+                if fx is None:
+                    continue
+                if recv in d and c.func.attr in _MUTATORS:
+                    d[recv] = [v for v in d[recv] if not any(v is a for a in c.args)]
+                for fld, exprs in fx.items():
+                    d.setdefault(recv + "." + fld, []).extend(exprs)
+            self._defs[f.qual] = d
+        return self._defs[f.qual]
+
+    def feeding(self, f, e, tainted_fields=()):
+        """{('ct'|'mixed', call) / ('field', path)}: ciphertext sources in the def-use closure of expression e inside f."""
+        d = self.defs(f)
+        seen, seen_calls, kinds = set(), set(), set()
+
+        def scan(x, depth):
+            for n in own_nodes(x, into_lambda=True):
+                if isinstance(n, ast.Call) and id(n) not in seen_calls:
+                    seen_calls.add(id(n))
+                    k = self.call_kind(f, n)
+                    if k:
+                        kinds.add((k, n))
+            if depth >= 8:
+                return
+            for l in leaves(x):
+                names = [l]
+                while "." in names[-1]:
+                    names.append(names[-1].rsplit(".", 1)[0])
+                for nm in names:
+                    if nm in seen:
+                        continue
+                    seen.add(nm)
+                    if "." in nm and nm.rsplit(".", 1)[1] in tainted_fields:
+                        kinds.add(("field", nm))
+                    for v in d.get(nm, []):
+                        scan(v, depth + 1)
+        scan(e, 0)
+        return kinds
+
+    def tainted_fields(self, funcs):
+        out = set()
+        for f in funcs:
+            for key, vals in self.defs(f).items():
+                if "." not in key:
+                    continue
+                if any(k[0] == "ct" for v in vals for k in self.feeding(f, v)):
+                    out.add(key.rsplit(".", 1)[1])
+        return out
+
+
+def _loop_exits(fn, s, flag):
+    """The ways out of the control-flow loop of fn that contains CFG node s: ([(test / iter node, edge label, value of the
+    boolean `flag` known on that way: 'T' / 'F' / '?')], states); (None, 0) when s is not inside a loop."""
+    cfg = fn.cfg()
+
+    def closure(start, edges, pick):
+        out, work = set(), [start]
+        while work:
+            x = work.pop()
+            for e in edges[x]:
+                y, lab = pick(e)
+                if lab == "exc" or y in out:
+                    continue
+                out.add(y)
+                work.append(y)
+        return out
+    fwd = closure(s.id, cfg.succ, lambda e: (e[0], e[1]))
+    bwd = closure(s.id, cfg.pred, lambda e: (e[0], e[1]))
+    scc = fwd & bwd
+    if s.id not in scc:
+        return None, 0
+    fnorm = FlowNorm(fn)
+    exits = []
+
+    def transfer(n, lab, nxt, st):
+        if lab == "exc" or n.id not in scc:
+            return None
+        v = _flag_on_edge(fnorm, n, lab, flag) if flag is not None else None
+        if v is not None:
+            if st != "?" and st != v:
+                return None
+            st = v
+        if n.kind == "test" and isinstance(n.ast, ast.Constant) and isinstance(lab, tuple) \
+                and lab[0] == ("F" if n.ast.value else "T"):
+            return None         # `while True:` - not a way out
+        if nxt.id not in scc:
+            if nxt is not cfg.raise_exit:
+                exits.append((n, lab, st))
+            return None
+        return st
+    visited, _parent = explore(cfg, "?", transfer, start=s)
+    return exits, len(visited)
+
+
+def _check_until(idx):
+    """deferredutil.until(action, condition) still is `repeat action() until condition()`: its loop is left only on calls
+    of its second parameter."""
+    u = idx.func("util.deferredutil:until")
+    ps = u.params
+    if len(ps) != 2:
+        raise AnchorVanished("until(action, condition) parameters")
+    cfg = u.cfg()
+    acts = [n for n in cfg.nodes if any(isinstance(c.func, ast.Name) and c.func.id == ps[0] for c in node_calls(n))]
+    if not acts:
+        raise AnchorVanished("until() no longer calls its action")
+    for s in acts:
+        exits, _n = _loop_exits(u, s, None)
+        if not exits:
+            raise AnalysisError("until(): the action is not called in a loop with a way out: the read loop is not decided")
+        for (n, lab, st) in exits:
+            e = n.ast if n.kind == "test" else None
+            ok = isinstance(e, ast.Call) and isinstance(e.func, ast.Name) and e.func.id == ps[1] and not e.args and not e.keywords
+            if not ok:
+                raise AnalysisError("until(): the loop is left on %s, not on its condition(): the read loop is not decided"
+                                    % (ast.unparse(n.ast) if n.ast is not None else n.kind))
 
 
 def _innermost(fn, node):
